@@ -17,7 +17,7 @@ ASSUMPTIONS = [
     "generators have distinct priorities per path (ties are not specified)",
     "the device file differ is annet.diff.UnifiedFileDiffer (the shipped default implementation), PC hardware, software string without Cumulus/SONiC",
 ]
-FLOORS = {"quick": {"listing_orders": 3000, "jobs_parsed": 3000, "shared_paths": 500, "forced_runs": 500, "diffs_checked": 1500, "cases_with_unsupported_generators": 400, "safe_mode_jobs": 2000, "safe_mode_jobs_with_empty_safe_set": 200},
+FLOORS = {"quick": {"listing_orders": 3000, "jobs_parsed": 3000, "shared_paths": 500, "forced_runs": 500, "diffs_checked": 1500, "cases_with_unsupported_generators": 400, "safe_mode_jobs": 2000, "safe_mode_jobs_with_empty_safe_set": 200, "cases_with_multi_line_files": 800, "cases_with_a_device_file_holding_the_same_lines_in_another_order": 300},
           "thorough": {"listing_orders": 120000, "jobs_parsed": 120000, "shared_paths": 20000, "forced_runs": 20000, "diffs_checked": 60000, "cases_with_unsupported_generators": 15000, "safe_mode_jobs": 80000, "safe_mode_jobs_with_empty_safe_set": 8000}}
 PATHS = ["/etc/a.conf", "/etc/b/b.conf", "/etc/c"]
 KNOWN_NL = "C19/upload-decision-blind-to-trailing-newline"
@@ -85,7 +85,10 @@ def gen_case(rng):
     return gens, old
 
 
-def check_case(seed, acc, unsupported=False):
+RICH = ["nameserver 1.1.1.1\nnameserver 8.8.8.8\n", "a\nb\nc\n", "permit x\ndeny y\npermit z\ndeny y\n", "k = 1\nk = 2", "one\n\ntwo\n"]
+
+
+def check_case(seed, acc, unsupported=False, perm=False):
     import annet.deploy as AD
     from annet import api, cli_args
     from annet.generators import run_file_generators
@@ -101,8 +104,29 @@ def check_case(seed, acc, unsupported=False):
         for g in gens_spec:
             g["unsupported"] = rng.random() < 0.4
         acc.count("cases_with_unsupported_generators")
+    if perm:
+        # multi-line files; the device often holds the same lines in another order, one line repeated, or one line changed in place
+        prng = random.Random(seed ^ 0x9E37)
+        for g in gens_spec:
+            g["output"] = prng.choice(RICH)
+        for g in gens_spec:
+            if prng.random() < 0.7:
+                ls = g["output"].split("\n")
+                tail = ls[-1:] if ls[-1] == "" else []
+                body = ls[:len(ls) - len(tail)]
+                x = prng.random()
+                if x < 0.6:
+                    prng.shuffle(body)
+                elif x < 0.8:
+                    body = body + body[:1]
+                else:
+                    body = [body[0] + " "] + body[1:]
+                old[g["path"]] = "\n".join(body + tail)
+        acc.count("cases_with_multi_line_files")
+        if any(old.get(g["path"]) is not None and old[g["path"]] != g["output"] and sorted(old[g["path"]].split("\n")) == sorted(g["output"].split("\n")) for g in gens_spec):
+            acc.count("cases_with_a_device_file_holding_the_same_lines_in_another_order")
     dev = H.FakeDevice(HardwareView("PC", "Linux"), pc=True)
-    w = {"seed": seed, "unsupported": unsupported, "generators": gens_spec, "old_files": old}
+    w = {"seed": seed, "unsupported": unsupported, "perm": perm, "generators": gens_spec, "old_files": old}
     # expected winner per path
     exp = {}
     for g in gens_spec:
@@ -246,7 +270,7 @@ def check_case(seed, acc, unsupported=False):
 
 def run_shard(spec, acc):
     if spec["mode"] == "replay":
-        check_case(spec["witness"]["seed"], acc, unsupported=bool(spec["witness"].get("unsupported")))
+        check_case(spec["witness"]["seed"], acc, unsupported=bool(spec["witness"].get("unsupported")), perm=bool(spec["witness"].get("perm")))
         return
     tier, k, n = spec["tier"], spec["shard"], spec["nshards"]
     total = 4800 if tier == "quick" else 90000
@@ -258,3 +282,5 @@ def run_shard(spec, acc):
             acc.sample({"seed": s, "case": gen_case(random.Random(s))[0]})
         if j % 4 == 3:
             check_case(rng.randrange(1 << 48), acc, unsupported=True)
+        if j % 4 == 1:
+            check_case(rng.randrange(1 << 48), acc, perm=True)
